@@ -6,6 +6,10 @@ ReplPriorityQueue).  Three-way, on the same seeded operation sequences:
         vs. the Lean battery model   (driver `batteries`, side "battery": PSO.Batteries.Repl*.step)
   (b) REAL builtin (int, list, dict, set, queue.Queue, queue.PriorityQueue, heapq on a list)
         vs. the Lean container spec  (side "ref": PSO.Batteries.Ref*.step, PSO.Py.PyHeap)
+      `set.pop()`: the reference is the set ABSTRACTION -- the element the battery returned must be a member
+      of the mimic set and exactly it is removed from the mimic (which member builtin set.pop() would pick
+      depends on the hash-table layout and is not part of what `set` specifies); that the battery picks the
+      element with the smallest (type name, repr) is checked by (a): the Lean battery model computes it.
   (c) MONITOR = the property statement on real code: battery result == builtin result for every
       operation, same final contents, and a replica that went through snapshots == one that did not.
 
@@ -23,7 +27,9 @@ import time
 PROPERTIES = ["C15"]
 ORDER = 50
 
-VALS = [-2, -1, 0, 1, 2, 3, 5, 8, 9, 16, 17]          # small domain; 1/9/17 and 0/8/16 collide mod 8 in a set
+# small domain; 1/9/17 and 0/8/16 collide mod 8 in a set; repr order differs from numeric order
+# ('-1' < '-10' < '-2' < '0' < '1' < '10' < '100' < '16' < '17' < '2' ...): ReplSet.pop chooses by repr
+VALS = [-10, -2, -1, 0, 1, 2, 3, 5, 8, 9, 10, 16, 17, 100]
 ERRS = (IndexError, ValueError, KeyError, TypeError, AssertionError)
 CLASSES = ["counter", "list", "dict", "set", "queue", "pq"]
 CLSNAME = {"counter": "ReplCounter", "list": "ReplList", "dict": "ReplDict", "set": "ReplSet",
@@ -188,7 +194,11 @@ def _reset(b, v, typ):
     b.v = v
 
 
-def call_builtin(cls, b, op):
+NO_ORACLE = object()
+
+
+def call_builtin(cls, b, op, oracle=NO_ORACLE):
+    """`oracle` (set.pop only): what the battery returned for this call"""
     name, a = args_of(cls, op)
     x = b.v
     try:
@@ -248,7 +258,12 @@ def call_builtin(cls, b, op):
             if name == "rawData":
                 return enc(x)
             if name == "pop":
-                return enc(x.pop())
+                if oracle is NO_ORACLE or not (isinstance(oracle, int) and not isinstance(oracle, bool)):
+                    return enc(x.pop())                 # empty -> KeyError; else some member
+                if oracle not in x:
+                    return {"e": "popped-element-is-not-a-member"}
+                x.remove(oracle)                        # "remove and return an arbitrary element": this one
+                return oracle
             return enc(getattr(x, name)(*a))            # add remove discard clear update
         if cls in ("queue", "pq"):
             if name in ("qsize", "__len__"):
@@ -286,16 +301,63 @@ def builtin_contents(cls, b):
     return enc(b.v), 0
 
 
-def run_builtin(cls, maxsize, ops):
+def run_builtin(cls, maxsize, ops, oracle=None):
+    """`oracle` = result list of the battery on the same sequence (used for set.pop only)"""
     b = make_builtin(cls, maxsize)
     res = []
-    for op in ops:
+    for i, op in enumerate(ops):
         if op[0] == "snapshot":
             res.append(None)
             continue
-        res.append(call_builtin(cls, b, op))
+        if cls == "set" and op[0] == "pop" and oracle is not None:
+            res.append(call_builtin(cls, b, op, oracle[i]))
+        else:
+            res.append(call_builtin(cls, b, op))
     c, m = builtin_contents(cls, b)
     return {"res": res, "state": c, "maxsize": m}
+
+
+def run_ref(B, cls, maxsize, ops):
+    """the real builtin given the same calls (set: following the battery's pop choices)"""
+    if cls == "set":
+        return run_builtin(cls, maxsize, ops, run_battery(B, cls, maxsize, ops, snapshots=False)["res"])
+    return run_builtin(cls, maxsize, ops)
+
+
+def drain(obj):
+    out = []
+    while len(obj):
+        out.append(obj.pop(_doApply=True))
+    return out
+
+
+def pop_order_variants(B, contents):
+    """ReplSets with EQUAL contents and different hash-table layouts / pop fingers: each is drained by
+    pop(); all must give the same sequence (the element popped is a function of the contents)"""
+    c = list(contents)
+    out = {}
+    a = B.ReplSet()
+    a.reset(set(c), _doApply=True)
+    out["reset"] = drain(a)
+    a = B.ReplSet()
+    for x in sorted(c, reverse=True):
+        a.add(x, _doApply=True)
+    out["added-descending"] = drain(a)
+    a = B.ReplSet()
+    for x in c + list(range(200, 260)):
+        a.add(x, _doApply=True)
+    for x in range(200, 260):
+        a.discard(x, _doApply=True)
+    out["grown-and-shrunk"] = drain(a)
+    a = B.ReplSet()
+    for x in c:
+        a.add(x, _doApply=True)
+    a.add(a.pop(_doApply=True), _doApply=True)          # same contents, pop finger moved (old code)
+    b = B.ReplSet()
+    b._deserialize(pickle.loads(pickle.dumps(a._serialize(), -1)))
+    out["popped-and-readded"] = drain(a)
+    out["pickle-round-trip"] = drain(b)
+    return out
 
 
 # ------------------------------------------------------------------------------------------------
@@ -492,7 +554,7 @@ def shape(op):
 FLOORS = {
     "counter": ["set:int", "add:int", "sub:int", "inc:int", "get():int"],
     "list": ["pop():int", "pop():IndexError", "pop(x):int", "pop(x):IndexError", "set:None", "set:IndexError",
-             "__setitem__:None", "__setitem__:IndexError", "get:int", "get:IndexError", "__getitem__:int",
+             "__setitem__:None", "__setitem__:IndexError", "get(x):int", "get(x):IndexError", "__getitem__:int",
              "__getitem__:IndexError", "remove:None", "remove:ValueError", "index:int", "index:ValueError",
              "count:int", "insert:None", "append:None", "extend:None", "sort():None", "sort(reverse=True):None",
              "sort(reverse=False):None", "reset(list):None", "reset(None):AssertionError", "reset(dict):AssertionError",
@@ -552,7 +614,7 @@ def monitor_case(B, cls, maxsize, ops):
         return []
     real = run_battery(B, cls, maxsize, ops, snapshots=True)
     plain = run_battery(B, cls, maxsize, ops, snapshots=False)
-    ref = run_builtin(cls, maxsize, ops)
+    ref = run_builtin(cls, maxsize, ops, plain["res"] if cls == "set" else None)
     if cls == "pq":                 # contents of a priority queue = a multiset (the heap layout is not observable)
         for r in (real, plain, ref):
             r["state"] = {"l": sorted(r["state"]["l"])}
@@ -575,6 +637,13 @@ def monitor_case(B, cls, maxsize, ops):
             viols.append(mk("batteries.%s:contents-differ-from-builtin" % CLSNAME[cls],
                             "%s holds %r (maxsize %r), %s given the same operations holds %r"
                             % (CLSNAME[cls], plain["state"], plain["maxsize"], BUILTIN[cls], ref["state"]), i))
+    # ReplSets with equal contents but other layouts must pop the same elements in the same order
+    if cls == "set" and plain["state"]["s"]:
+        var = pop_order_variants(B, plain["state"]["s"])
+        if len(set(json.dumps(v) for v in var.values())) > 1:
+            viols.append(mk("batteries.ReplSet.pop:layout-dependent",
+                            "ReplSets holding the same contents %r, built in different ways, are drained by pop() in "
+                            "different orders: %r" % (plain["state"]["s"], var), len(ops)))
     # replica rebuilt from snapshots vs replica that applied everything: "all replicas are equal"
     if has_snapshot:
         i = first_diff(real, plain)
@@ -657,12 +726,12 @@ def run(ctx):
             real.append(None)
         else:
             real.append(run_battery(B, cls, m, ops))
-        ref.append(run_builtin(cls, m, ops))
+        ref.append(run_builtin(cls, m, ops, real[-1]["res"] if cls == "set" else None))
     # model runs (one driver invocation)
     lines = []
     for (cls, m, ops), ra, rb in zip(cases, real, ref):
         if cls != "heap":
-            lines.append(lean_line(cls, "battery", m, with_oracle(ops, ra["res"]) if cls == "set" else ops))
+            lines.append(lean_line(cls, "battery", m, ops))      # set.pop: the model chooses by the implemented rule
         lines.append(lean_line(cls, "ref", m, with_oracle(ops, rb["res"]) if cls == "set" else ops))
     outl = ctx.driver("batteries", lines)
     if len(outl) != len(lines):
@@ -681,12 +750,12 @@ def run(ctx):
             if "error" in model or first_diff(impl, model) is not None or len(impl["res"]) != len(model.get("res", [])):
                 if len(disagreements) < 3:
                     def bad(c, side=side, cls=cls, m=m):
-                        im = (run_battery(B, cls, m, c) if side == "battery" else run_builtin(cls, m, c))
-                        mo = json.loads(ctx.driver("batteries", [lean_line(cls, side, m, with_oracle(c, im["res"]) if cls == "set" else c)])[0])
+                        im = (run_battery(B, cls, m, c) if side == "battery" else run_ref(B, cls, m, c))
+                        mo = json.loads(ctx.driver("batteries", [lean_line(cls, side, m, with_oracle(c, im["res"]) if cls == "set" and side == "ref" else c)])[0])
                         return "error" in mo or first_diff(im, mo) is not None
                     small = shrink(ops, bad)
-                    im = (run_battery(B, cls, m, small) if side == "battery" else run_builtin(cls, m, small))
-                    mo = json.loads(ctx.driver("batteries", [lean_line(cls, side, m, with_oracle(small, im["res"]) if cls == "set" else small)])[0])
+                    im = (run_battery(B, cls, m, small) if side == "battery" else run_ref(B, cls, m, small))
+                    mo = json.loads(ctx.driver("batteries", [lean_line(cls, side, m, with_oracle(small, im["res"]) if cls == "set" and side == "ref" else small)])[0])
                     if any(d["input"] == {"cls": cls, "side": side, "maxsize": m, "ops": small} for d in disagreements):
                         continue
                     disagreements.append({"input": {"cls": cls, "side": side, "maxsize": m, "ops": small},
@@ -775,11 +844,10 @@ def replay(ctx, violation):
     out = {"violated": bool(same), "signature": violation["signature"], "input": r,
            "battery": run_battery(B, r["cls"], r.get("maxsize"), r["ops"]),
            "battery_without_snapshots": run_battery(B, r["cls"], r.get("maxsize"), r["ops"], snapshots=False),
-           "builtin": run_builtin(r["cls"], r.get("maxsize"), r["ops"])}
+           "builtin": run_ref(B, r["cls"], r.get("maxsize"), r["ops"])}
     try:
         out["model_battery"] = json.loads(ctx.driver("batteries", [lean_line(
-            r["cls"], "battery", r.get("maxsize"),
-            with_oracle(r["ops"], out["battery"]["res"]) if r["cls"] == "set" else r["ops"])])[0])
+            r["cls"], "battery", r.get("maxsize"), r["ops"])])[0])
     except Exception as e:
         out["model_battery"] = "driver: %s" % e
     if same:
